@@ -154,6 +154,8 @@ func c09(c *Ctx) {
 		sort.Slice(entries, func(i, j int) bool { return entries[i].String() < entries[j].String() })
 		c.noGlobalWrites("R09.P", entries, "the client's paths: two clients of one process would share it")
 	}
+	r.Rule("R09.H", "an rpc_error reaches its caller unless the client has repaired its cause: tryToProcessErr returns the error it was given or the result of Reconnect(), never a nil of its own (= R17.M handled-only-by-reconnect filed under C09)", 1)
+	c.handledOnlyByReconnect("R09.H")
 	r.Rule("R09.V", "no goroutine or deferred function literal started inside a loop captures a variable that is one cell for the whole loop and is stored on every iteration (go 1.13 loop-variable semantics: every item of a container would be processed as the last one)", 1)
 	{
 		var fns []*ssa.Function
